@@ -159,6 +159,28 @@ def concat_target_cases(ok_scripts):
             body.append(f"print(l == {lit(left)})\nprint(r == {lit(right)})")
             exp.append("true\ntrue\n")
             ok_scripts.append(((kind, len(lb), "concat-assign", tname, len(rb)), "\n".join(body) + "\n", "".join(exp)))
+            # the same with the target holding the LEFT OPERAND ITSELF (not an equal copy): the concatenation is a new sequence,
+            # the value `l` names keeps its length and its elements — also when the right operand is that same value
+            for rname, rv in (("r", right), ("l", left)):
+                rvb = rv if kind == "list" else list(rv.encode("utf-8"))
+                body = [f"l := {lit(left)}", decl.replace("@L", "l").rstrip("\n"), f"r := {lit(right)}", f"{t} += {rname}"]
+                exp = []
+                body.append(f"print({t} == {lit(left + rv)})")
+                exp.append("true\n")
+                body.append(f"print(l == {lit(left)})\nprint(r == {lit(right)})")
+                exp.append("true\ntrue\n")
+                if kind == "list":
+                    body.append(f"print(l)\nprint({t} === l)")
+                    exp.append(render_list(left) + "false\n")
+                    if left + rv:
+                        body.append(f"{t}[0] = 77\nprint(l == {lit(left)})")
+                        exp.append("true\n")
+                for k in range(len(lb)):
+                    body.append(f"print({t}[{k}] == l[{k}])")
+                    exp.append("true\n" if not (kind == "list" and k == 0) else "false\n")
+                body.append(f"n := 0\nfor [k, v] in l {{\n    n += 1\n}}\nprint(n)")
+                exp.append(f"{len(lb)}\n")
+                ok_scripts.append(((kind, len(lb), "concat-assign-aliased", tname, rname, len(rvb)), "\n".join(body) + "\n", "".join(exp)))
 
 
 def self_referential_cases(ok_scripts):
